@@ -240,6 +240,6 @@ def cases():
     cs.append(Case("boundary", boundary_case(), encodes=enc, families=("basic", "mono", "bounds"), batch=False, bounds="t>0, v>0, K>0", timeout=120))
     for kind, calls in (("european", (True, False)), ("eubinary", (True, False)), ("ambinary", (True, False)), ("lookback", (True, False))):
         for call in calls:
-            cs.append(Case("wiring/%s/%s" % (kind, "call" if call else "put"), wiring_case(kind, call), encodes=enc, families=fam,
+            cs.append(Case("wiring/%s/%s" % (kind, "call" if call else "put"), wiring_case(kind, call), encodes=enc, families=("basic", "mono"),
                            bounds="N=2 T=3 symbolic buffers; tensors (2,)", timeout=60))
     return cs
